@@ -101,6 +101,12 @@ META = {
         "level_text": "Generated search over writer configuration x retries x streams x sizes around every buffer boundary x chunking x done consumer, plus the enumerated grid; files compared with the pattern the child was told to emit.",
         "level_note": "Trusted: tools/emit writes what pat.Bytes says (shared package); the OS pipe semantics. Exhaustive only for the listed grid.",
     },
+    "C11": {
+        "engine": "procprobe", "design_ref": "DESIGN.md section 3 C11",
+        "technique": "property-based testing (rapid): constructive generator of parameter strings (expected values known by construction) against the real loader, record->reload round-trip oracle, and real child processes whose exact environment is dumped with `env -0` at every consumer position incl. retry and restart",
+        "level_text": "Generated search over the documented parameter syntax x value alphabets and over payloads x sizes x consumer positions with real processes; every observed environment value compared with the value known by construction.",
+        "level_note": "Trusted: `env -0` reports the child's environment faithfully; yaml.v2 as emitter of the generated definitions. The CLI quoting layer is not part of the in-process legs.",
+    },
 }
 
 NOT_APPLICABLE = {}
